@@ -709,4 +709,94 @@ theorem desc_unrelabel {n : Nat} {et et' : Array Nat} {q : Nat → Nat} (hheap :
     exact ⟨b, hb, hqb, Desc.step han hd⟩
 
 
+
+/-! ### relax_snode loop -/
+
+theorem getD_setIfInBounds' {α : Type} (a : Array α) (i k : Nat) (v d : α) :
+    (a.setIfInBounds i v).getD k d = if k = i ∧ i < a.size then v else a.getD k d := by
+  simp only [Array.getD_eq_getD_getElem?, Array.getElem?_setIfInBounds]
+  by_cases h : i = k
+  · subst h
+    by_cases h2 : i < a.size
+    · simp [h2]
+    · simp [h2]
+  · have h' : ¬ k = i := fun e => h e.symm
+    simp [h, h']
+
+theorem climb_bounds {n relax : Nat} {et desc : Array Nat} (h : Heap n et) (fuel j : Nat) (hj : j < n) :
+    j ≤ climb n relax et desc fuel j ∧ climb n relax et desc fuel j < n := by
+  induction fuel generalizing j with
+  | zero => exact ⟨Nat.le_refl _, hj⟩
+  | succ f ih =>
+    unfold climb
+    simp only
+    split
+    · rename_i hc
+      obtain ⟨h1, h2⟩ := h.lt hj
+      have hp : et.getD j 0 < n := by omega
+      obtain ⟨a, b⟩ := ih _ hp
+      exact ⟨by omega, b⟩
+    · exact ⟨Nat.le_refl _, hj⟩
+
+/-- state of the supernode loop: ranges found so far lie below `j`, nothing is recorded from `j` on -/
+def RelaxInv (n j : Nat) (re : Array Int) : Prop :=
+  re.size = n ∧ (∀ s, j ≤ s → re.getD s (-1) = -1) ∧
+  ∀ s < j, re.getD s (-1) = -1 ∨
+    ∃ e : Nat, re.getD s (-1) = Int.ofNat e ∧ s ≤ e ∧ e < j ∧ e < n ∧ ∀ t, s < t → t ≤ e → re.getD t (-1) = -1
+
+theorem relaxLoop_inv {n relax : Nat} {et desc : Array Nat} (h : Heap n et) (fuel j : Nat) (re : Array Int)
+    (hinv : RelaxInv n j re) : ∃ j', RelaxInv n j' (relaxLoop n relax et desc fuel j re) := by
+  induction fuel generalizing j re with
+  | zero => exact ⟨j, hinv⟩
+  | succ f ih =>
+    unfold relaxLoop
+    simp only
+    split
+    · exact ⟨j, hinv⟩
+    · rename_i hjn
+      have hj : j < n := by omega
+      obtain ⟨hs, hhi, hlo⟩ := hinv
+      obtain ⟨hc1, hc2⟩ := climb_bounds (relax := relax) (desc := desc) h n j hj
+      apply ih
+      -- the next start exceeds the last column of this supernode
+      have hnxt : climb n relax et desc n j <
+          ((List.range n).find? fun k => decide (k > climb n relax et desc n j) && desc.getD k 0 == 0).getD n := by
+        cases hf : (List.range n).find? fun k => decide (k > climb n relax et desc n j) && desc.getD k 0 == 0 with
+        | none => simpa using hc2
+        | some k =>
+          have := List.find?_some hf
+          simp only [Bool.and_eq_true, decide_eq_true_eq] at this
+          simpa using this.1
+      refine ⟨by simpa using hs, ?_, ?_⟩
+      · intro s hs'
+        rw [getD_setIfInBounds']
+        have : ¬ (s = j ∧ j < re.size) := by omega
+        rw [if_neg this]
+        exact hhi s (by omega)
+      · intro s hs'
+        rw [getD_setIfInBounds']
+        by_cases e : s = j
+        · subst e
+          right
+          refine ⟨climb n relax et desc n s, by simp [hs, hj], hc1, hnxt, hc2, ?_⟩
+          intro t ht1 ht2
+          rw [getD_setIfInBounds']
+          have : ¬ (t = s ∧ s < re.size) := by omega
+          rw [if_neg this]
+          exact hhi t (by omega)
+        · have hne : ¬ (s = j ∧ j < re.size) := fun c => e c.1
+          rw [if_neg hne]
+          by_cases hsj : s < j
+          · rcases hlo s hsj with h1 | ⟨e', he1, he2, he3, he4, he5⟩
+            · exact Or.inl h1
+            · right
+              refine ⟨e', he1, he2, by omega, he4, ?_⟩
+              intro t ht1 ht2
+              rw [getD_setIfInBounds']
+              have : ¬ (t = j ∧ j < re.size) := by omega
+              rw [if_neg this]
+              exact he5 t ht1 ht2
+          · left; exact hhi s (by omega)
+
+
 end Slu.Order
